@@ -9,7 +9,9 @@ Template directives (each on its own line, starting at column 0 or indented):
                props=C01,C05  case=<case id>[,<case id>..]  spec=<key>
                src=expanded   (slice from the macro-expanded crate instead)
   //@@spec                              lines until next //@@ directive: contract header
-  //@@at start|end|let <name> <k>|loop <k>|line "<text>" <k>|before_line "<text>" <k>
+  //@@at start|end|let <name> <k>|loop <k>|line "<text>" <k>|before_line "<text>" <k>|nested <fn>
+        (nested <fn>: contract header of the fn item <fn> nested in the body; with opt nestedret=<r> its
+         result is named <r>)
                                         lines until next directive: woven hint
   //@@endfn
   //@@item <file> | <kind> | <name>    verbatim struct/const/static/type slice
@@ -80,6 +82,9 @@ def _parse_anchor(rest):
     m = re.match(r'^(line|before_line)\s+"(.*)"(?:\s+(\d+))?$', rest)
     if m:
         return (m.group(1), m.group(2), int(m.group(3) or 0))
+    m = re.match(r'^nested\s+(\w+)$', rest)
+    if m:
+        return ('nested', m.group(1))
     raise ValueError("bad anchor: %r" % rest)
 
 
@@ -280,7 +285,7 @@ def generate(name, expanded_src=None):
                 ret = e.opts.get('ret')
                 rename = e.opts.get('as')
                 vis = '' if ' for ' in (' ' + e.impl + ' ') and e.impl not in ('-', '') else 'pub '
-                text, _ = rsx.normalise_fn(raw, cfg, rename=rename, ret_name=ret, vis=vis, revloops=e.opts.get('revloops'), lebytes=bool(e.opts.get('lebytes')), destruct=bool(e.opts.get('destruct')), localconst=bool(e.opts.get('localconst')))
+                text, _ = rsx.normalise_fn(raw, cfg, rename=rename, ret_name=ret, vis=vis, revloops=e.opts.get('revloops'), lebytes=bool(e.opts.get('lebytes')), destruct=bool(e.opts.get('destruct')), localconst=bool(e.opts.get('localconst')), nestedret=e.opts.get('nestedret'))
                 if e.trusted:
                     # signature + spec only; body replaced by unimplemented!()
                     toks = rsx.tokenize(text)
@@ -299,7 +304,7 @@ def generate(name, expanded_src=None):
                     woven = rsx.weave(text, spec=e.spec if e.spec.strip() else None, hints=e.hints)
                     # erasure check
                     got = rsx.erase_tokens(woven)
-                    want_toks = rsx.source_tokens(raw, cfg, rename=rename, ret_name=ret, vis=vis, revloops=e.opts.get('revloops'), lebytes=bool(e.opts.get('lebytes')), destruct=bool(e.opts.get('destruct')), localconst=bool(e.opts.get('localconst')))
+                    want_toks = rsx.source_tokens(raw, cfg, rename=rename, ret_name=ret, vis=vis, revloops=e.opts.get('revloops'), lebytes=bool(e.opts.get('lebytes')), destruct=bool(e.opts.get('destruct')), localconst=bool(e.opts.get('localconst')), nestedret=e.opts.get('nestedret'))
                     if got != want_toks:
                         u.erasure_ok = False
                         # find first difference
